@@ -91,4 +91,20 @@ CHECKS = {
         assumptions=["build parameters hold only events of their own block range (what GetBridgesAndClaims returns)"],
         trusted_base=["goextract translator", "hand model Model/CertRange.lean"],
     ),
+    "C20": dict(
+        modules=["AggkitModel.Properties.C20"],
+        scenarios=[dict(name="claimtrace")],
+        generated=[],
+        leanchecker=True,
+        level_text="Proved in Lean 4 for ALL call trees (nested inductive, any depth/fan-out, reverted frames anywhere, any number of claim calls): C20_sound — whatever is recorded comes from a call addressed to the bridge "
+                   "with the event's global index that is live (not reverted, not inside a reverted call), with no assumption on other calls; C20_complete / C20_none — if every live call to the bridge is a claim call, "
+                   "details are recorded iff such a call exists, else the search ends in an error and nothing is recorded. The model mirrors findCall's explicit LIFO stack and the decode dispatch. "
+                   "Tie: the real Claim.setClaimCalldata (verif hook) with a fake RPC client serving generated traces whose calldata is packed with the real bridge ABIs (both generations, asset and message), compared with the model; "
+                   "an independent recursive reference decides the property on the implementation's output (all decoded fields, not just the index).",
+        level_note="Trusted: Lean kernel; model/code correspondence (generator-bounded); go-ethereum ABI decoding and the trace JSON decoding are exercised, not modelled; field extraction is abstracted to an id in the model and checked field by field by the monitor.",
+        rule="seeded random call trees depth<=6 fan-out<=4, 22% reverted frames, 45% bridge calls, global indexes incl. values differing only above bit 63 and uint32-range values shared by both contract generations; "
+             "event index drawn mostly from indexes present in the tree; separate malformed stream (non-claim selectors / short input addressed to the bridge); distinct non-trivial = distinct trace lines",
+        assumptions=["every call addressed to the bridge is a claim call (the property's own restriction) for completeness; soundness needs nothing"],
+        trusted_base=["hand model Model/ClaimTrace.lean"],
+    ),
 }
